@@ -132,10 +132,12 @@ Proof.
         -- intros W. destruct (I3 W) as (A & B & C). repeat split; auto.
            ++ now apply no_new_drop.
            ++ rewrite C. cbn. now rewrite (no_new_is_old t _ B).
-      * destruct (can_drop (bobs s) (bstale s) (bsig s) (bsignew s) t) eqn:Ol; [|discriminate]. inversion H; subst; clear H.
-        constructor; cbn; auto.
-        -- intros St. exact (can_drop_keeps _ _ _ _ _ Ol St (I1 St)).
-        -- intros W. destruct (I3 W) as (A & B & C). repeat split; auto. now apply no_new_drop.
+      * destruct (can_drop (bobs s) (bstale s) (bsig s) (bsignew s) t) eqn:Ol.
+        -- inversion H; subst; clear H.
+           constructor; cbn; auto.
+           ++ intros St. exact (can_drop_keeps _ _ _ _ _ Ol St (I1 St)).
+           ++ intros W. destruct (I3 W) as (A & B & C). repeat split; auto. now apply no_new_drop.
+        -- inversion H; subst; clear H. constructor; auto. intros Sg. exfalso. specialize (I2 Sg). discriminate.
     + inversion H; subst; clear H. constructor; cbn; auto.
       * intros St. destruct (I1 St) as [N|[N1 N2]]; [left; exact N|]. right. rewrite N1. auto.
       * intros S1. apply orb_prop in S1 as [S1|S1]; auto.
